@@ -946,6 +946,13 @@ func GenWMPTRollback(r *rand.Rand, mode string) WHist {
 	// may bring such a node back and then it is a node that only this commit created)
 	var gone []int
 	for c := r.Intn(3); c > 0; c-- {
+		if r.Intn(3) == 0 {
+			// a transient key inside the batch, with the root hash read while it exists: hashes of nodes that are never stored
+			k := r.Intn(nk)
+			if _, ok := cur[k]; !ok {
+				h.Ops = append(h.Ops, WOp{Op: "update", K: k, V: val(k, true)}, WOp{Op: "readroot"}, WOp{Op: "delete", K: k})
+			}
+		}
 		for i := 0; i < 1+r.Intn(2); i++ {
 			k := r.Intn(nk)
 			if _, ok := cur[k]; ok && r.Intn(3) > 0 {
